@@ -10,7 +10,7 @@ usage: mutsweep.py run <rel file under inscripta/biocantor> [--n N] [--seed S] [
        mutsweep.py list <rel file>
        mutsweep.py report <out file>...
 """
-import ast, copy, json, os, random, re, shutil, subprocess, sys, tempfile, multiprocessing
+import ast, copy, glob, json, os, random, re, shutil, subprocess, sys, tempfile, multiprocessing
 
 REPO = "/repo"
 CMP = {ast.Lt: ast.LtE, ast.LtE: ast.Lt, ast.Gt: ast.GtE, ast.GtE: ast.Gt, ast.Eq: ast.NotEq, ast.NotEq: ast.Eq,
@@ -192,9 +192,10 @@ def prepare(workdir):
 
 
 def run_one(job):
-    rel, k, site, pids, procs = job
+    rel, k, site, pids, procs = job[:5]
+    skip_tests = len(job) > 5 and job[5]
     ident = multiprocessing.current_process()._identity
-    w = "/tmp/msweep_w%d" % (ident[0] if ident else 0)
+    w = "/tmp/msweep_%d_w%d" % (os.getppid(), ident[0] if ident else 0)
     marker = w + "/.prepared"
     if not os.path.exists(marker):
         prepare(w)
@@ -210,9 +211,11 @@ def run_one(job):
             rec["status"] = "invalid:" + type(e).__name__
             return rec
         open(path, "w").write(msrc)
-        r = subprocess.run(["/venv/bin/python", "-m", "pytest", "-q", "-p", "no:cacheprovider", "--continue-on-collection-errors",
-                            "-n", str(procs), "--timeout=300", "tests"], cwd=w, env=dict(os.environ, PYTHONPATH=w), capture_output=True, text=True)
-        last = r.stdout.strip().splitlines()[-1] if r.stdout.strip() else ""
+        r = None
+        if not skip_tests:
+            r = subprocess.run(["/venv/bin/python", "-m", "pytest", "-q", "-p", "no:cacheprovider", "--continue-on-collection-errors",
+                                "-n", str(procs), "--timeout=300", "tests"], cwd=w, env=dict(os.environ, PYTHONPATH=w), capture_output=True, text=True)
+        last = (r.stdout.strip().splitlines()[-1] if r.stdout.strip() else "") if r is not None else "1466 passed, 0 errors in 0s (not re-run)"
         rec["tests"] = last[:80]
         if not re.match(r"^1466 passed, \d+ errors? in", last):
             rec["status"] = "killed_by_suite"
@@ -257,6 +260,33 @@ def main():
         for r in by.get("harness_error", []):
             print("ERROR %s:%d %s %s" % (r["file"], r["line"], r["kind"], r.get("err", "")[-200:]))
         return
+    if cmd == "recheck":
+        # run further checks against the mutants a previous sweep reported as missed
+        f = a.pop(0)
+        opt = {"--pids": "", "--workers": "3"}
+        while a:
+            k = a.pop(0)
+            opt[k] = a.pop(0)
+        rows = [json.loads(l) for l in open(f)]
+        workers = int(opt["--workers"])
+        procs = max(2, 16 // workers)
+        jobs = []
+        for r in rows:
+            if r["status"] == "missed":
+                src = open(REPO + "/inscripta/biocantor/" + r["file"]).read()
+                site = [s_ for s_ in sites_of(src) if s_[0] == r["k"]][0]
+                done = {p_ for p_, _ in r.get("checked", [])}
+                pids = [p_ for p_ in opt["--pids"].split(",") if p_ not in done]
+                jobs.append((r["file"], r["k"], site, pids, procs, True))
+        out = f.replace(".jsonl", "") + ".recheck.jsonl"
+        with multiprocessing.Pool(workers) as pool, open(out, "a") as fh:
+            for rec in pool.imap_unordered(run_one, jobs):
+                fh.write(json.dumps(rec) + "\n")
+                fh.flush()
+                print(rec["status"], rec["file"], rec["line"], rec["kind"], rec.get("by", ""), flush=True)
+        for d_ in glob.glob("/tmp/msweep_%d_w*" % os.getpid()):
+            shutil.rmtree(d_, ignore_errors=True)
+        return
     rel = a.pop(0)
     opt = {"--n": "30", "--seed": "1", "--workers": "4", "--pids": "", "--out": "", "--kinds": ""}
     while a:
@@ -280,8 +310,8 @@ def main():
             fh.write(json.dumps(rec) + "\n")
             fh.flush()
             print(rec["status"], rec["file"], rec["line"], rec["kind"], rec.get("by", ""), flush=True)
-    for i in range(1, workers + 2):
-        shutil.rmtree("/tmp/msweep_w%d" % i, ignore_errors=True)
+    for d_ in glob.glob("/tmp/msweep_%d_w*" % os.getpid()):
+        shutil.rmtree(d_, ignore_errors=True)
 
 
 if __name__ == "__main__":
